@@ -490,6 +490,17 @@ def _restore_fn(world, o):
                     if os.path.isfile(p_):
                         with real_open(p_, "ab") as fh:
                             fh.write(b"7.77\t1\tedited-again\tn/a\t2\n")
+                if not tk:
+                    # ... then for some tasks only, and finally in full again: what an earlier filtered restore on this
+                    # object selected must not narrow a later full one (the final state is judged as a full restore)
+                    first = [TASKS[len(rec) % len(TASKS)]]
+                    man.restore_backup(o["name"], task_names=first, verbose=False)
+                    keys = sorted(rec)
+                    for key in keys[::max(1, len(keys) // 4)][:5]:
+                        p_ = os.path.join(root, key)
+                        if os.path.isfile(p_):
+                            with real_open(p_, "ab") as fh:
+                                fh.write(b"8.88\t1\tedited-after-filtered-restore\tn/a\t3\n")
                 man.restore_backup(o["name"], task_names=o.get("tasks") or [], verbose=False)
             return True
     return fn
